@@ -253,9 +253,9 @@ def run_rotators(ctx, rng, n_cases):
 def run(ctx):
     C.setup_impl_env()
     rng = ctx.rng.child("c04").np
-    run_single(ctx, rng, ctx.n(60, 1500))
-    run_rotators(ctx, rng, ctx.n(40, 800))
-    run_cross(ctx, rng, ctx.n(48, 1200))
+    run_single(ctx, rng, ctx.n(60, 500))
+    run_rotators(ctx, rng, ctx.n(40, 300))
+    run_cross(ctx, rng, ctx.n(48, 400))
     run_multi(ctx, rng, ctx.n(6, 60))
     ctx.oblige("oracle:transform(training) == scores on every transform-capable class", "oracle", not ctx.violations)
     if ctx.extra.get("model_ok", True):
